@@ -88,6 +88,14 @@ RunResult runPlan(Family* fam, const Plan& plan, bool trace, StatusSlot* slot) {
 	ctx.slot = slot;
 	if (slot) { slot->op = 0; slot->variant[0] = 0; }
 
+	bool clocaleMissing = false;
+	// process environment and C locale are environment too: os.NAME=value entries become environment variables for this run,
+	// clocale=... the C locale (both restored afterwards; the process starts with every locale variable unset, see main)
+	std::vector<std::string> osSet;
+	for (auto& kv : plan.env) if (kv.first.rfind("os.", 0) == 0 && kv.first.size() > 3) { ::setenv(kv.first.c_str() + 3, unquoteToken(kv.second).c_str(), 1); osSet.push_back(kv.first.substr(3)); }
+	std::string clocale = plan.envs("clocale", "");
+	if (!clocale.empty() && !setlocale(LC_ALL, clocale.c_str())) clocaleMissing = true;
+	// (in force before the prelude as well: state the library latches from the environment on first use is latched from THIS environment)
 	processPrelude(); // before every plan, the same everywhere (sim/scen/prelude.cpp)
 	disk::wipe();
 	resetDirOrdinal();
@@ -109,12 +117,7 @@ RunResult runPlan(Family* fam, const Plan& plan, bool trace, StatusSlot* slot) {
 	g_alloc.capHits = 0;
 	g_alloc.failCountdown = 0;
 	g_alloc.injectedFailures = 0;
-	// process environment and C locale are environment too: os.NAME=value entries become environment variables for this run,
-	// clocale=... the C locale (both restored afterwards; the process starts with every locale variable unset, see main)
-	std::vector<std::string> osSet;
-	for (auto& kv : plan.env) if (kv.first.rfind("os.", 0) == 0 && kv.first.size() > 3) { ::setenv(kv.first.c_str() + 3, unquoteToken(kv.second).c_str(), 1); osSet.push_back(kv.first.substr(3)); }
-	std::string clocale = plan.envs("clocale", "");
-	if (!clocale.empty() && !setlocale(LC_ALL, clocale.c_str())) ctx.counters["probe.clocale_not_available"]++;
+	if (clocaleMissing) ctx.counters["probe.clocale_not_available"]++;
 	scribbleStack(stackFill);
 	alarm(static_cast<unsigned>(plan.envu("watchdog", 60)));
 
@@ -226,6 +229,68 @@ static bool itemAt(const std::vector<uint64_t>& counts, uint64_t k, Item& out) {
 	return false;
 }
 
+static void emitResult(FILE* out, const Item& it, const RunResult& r) {
+	switch (r.kind) {
+	case RunResult::Ok:
+		fprintf(out, "R %zu %llu %llx %llx %d %llu %llu %llu\n", it.part, static_cast<unsigned long long>(it.idx),
+		        static_cast<unsigned long long>(r.fp), static_cast<unsigned long long>(r.sched), r.nontrivial ? 1 : 0,
+		        static_cast<unsigned long long>(r.evaluations), static_cast<unsigned long long>(r.nontrivialEvals),
+		        static_cast<unsigned long long>(r.distinctEvals));
+		break;
+	case RunResult::Violated:
+		fprintf(out, "V %zu %llu %s %zu |%s| %s\n", it.part, static_cast<unsigned long long>(it.idx), r.v.clause.c_str(), r.v.opIndex,
+		        oneLine(r.v.variant).c_str(), oneLine(r.v.msg).c_str());
+		break;
+	case RunResult::Foreign:
+		fprintf(out, "F %zu %llu %s\n", it.part, static_cast<unsigned long long>(it.idx), r.v.clause.c_str());
+		break;
+	case RunResult::HarnessError:
+		fprintf(out, "E %zu %llu %s\n", it.part, static_cast<unsigned long long>(it.idx), oneLine(r.error).c_str());
+		break;
+	}
+}
+
+// A plan that changes process-global environment (os.* variables, the C locale) is executed in a PRISTINE process: a child of the
+// zygote, which is forked from the worker before the worker has executed anything, so that the plan (its prelude included) is the
+// first thing the library ever sees there - whatever the library latches from the environment on first use is latched from this
+// plan's environment, exactly as in the fresh process that later gates and replays a violation. The child writes the ordinary
+// result lines to the worker's pipe (the worker waits meanwhile). If the child does not end normally (sanitizer report, signal,
+// watchdog), the worker executes the plan itself, so that crash handling stays where it is.
+static bool wantsPristineProcess(const Plan& plan) {
+	for (auto& kv : plan.env) if (kv.first.rfind("os.", 0) == 0 || kv.first == "clocale") return true;
+	return false;
+}
+[[noreturn]] static void zygoteMain(const Config& cfg, const std::vector<Part>& parts, const std::vector<uint64_t>& counts, const std::string& root,
+                                    int outFd, StatusSlot* slot, int reqFd, int ackFd) {
+	for (;;) {
+		uint64_t k = 0;
+		ssize_t n = ::read(reqFd, &k, sizeof k);
+		if (n != static_cast<ssize_t>(sizeof k)) _exit(0);
+		pid_t gc = fork();
+		if (gc == 0) {
+			Item it;
+			if (!itemAt(counts, k, it)) _exit(3);
+			const Part& part = parts[it.part];
+			Family* fam = findFamily(part.family);
+			disk::enterScratch(root + "z");
+			Plan plan = makePlan(cfg, part, it.idx);
+			RunResult r = runPlan(fam, plan, false, slot);
+			FILE* out = fdopen(dup(outFd), "w");
+			if (!out) _exit(4);
+			for (auto& c : r.counters) if (c.second) fprintf(out, "S %zu:%s %llu\n", it.part, c.first.c_str(), static_cast<unsigned long long>(c.second));
+			fprintf(out, "S %zu:probe.plan_run_in_pristine_process 1\n", it.part);
+			emitResult(out, it, r);
+			fflush(out);
+			disk::removeScratch();
+			SIM_FLUSH_COVERAGE();
+			_exit(0);
+		}
+		char ack = 0;
+		if (gc > 0) { int st = 0; if (waitpid(gc, &st, 0) == gc && WIFEXITED(st) && WEXITSTATUS(st) == 0) ack = 1; }
+		if (::write(ackFd, &ack, 1) != 1) _exit(0);
+	}
+}
+
 [[noreturn]] static void workerMain(const Config& cfg, const std::vector<Part>& parts, const std::vector<uint64_t>& counts,
                                     int w, int W, uint64_t startK, int outFd, StatusSlot* slot) {
 	installProcessHandlers();
@@ -235,6 +300,13 @@ static bool itemAt(const std::vector<uint64_t>& counts, uint64_t k, Item& out) {
 		std::string log = cfg.scratchBase + "/w" + std::to_string(w) + ".stderr";
 		int fd = open(log.c_str(), O_WRONLY | O_CREAT | O_TRUNC, 0666);
 		if (fd >= 0) { dup2(fd, 2); close(fd); }
+	}
+	int zreq[2] = {-1, -1}, zack[2] = {-1, -1};
+	pid_t zy = -1;
+	if (pipe(zreq) == 0 && pipe(zack) == 0) {
+		zy = fork();
+		if (zy == 0) { close(zreq[1]); close(zack[0]); zygoteMain(cfg, parts, counts, root, outFd, slot, zreq[0], zack[1]); }
+		close(zreq[0]); close(zack[1]);
 	}
 	disk::enterScratch(root);
 	FILE* out = fdopen(outFd, "w");
@@ -257,31 +329,22 @@ static bool itemAt(const std::vector<uint64_t>& counts, uint64_t k, Item& out) {
 		Plan plan = makePlan(cfg, part, it.idx);
 		alarm(0);
 		slot->phase = 2;
+		if (zy > 0 && wantsPristineProcess(plan)) {
+			flushCounters();
+			fflush(out);
+			char ack = 0;
+			if (::write(zreq[1], &k, sizeof k) == static_cast<ssize_t>(sizeof k) && ::read(zack[0], &ack, 1) == 1 && ack == 1) { slot->phase = 3; continue; }
+			// not ended normally over there: execute it here, where a dying run is accounted for
+		}
 		RunResult r = runPlan(fam, plan, false, slot);
 		slot->phase = 3;
 		for (auto& c : r.counters) acc[std::to_string(it.part) + ":" + c.first] += c.second;
-		switch (r.kind) {
-		case RunResult::Ok:
-			fprintf(out, "R %zu %llu %llx %llx %d %llu %llu %llu\n", it.part, static_cast<unsigned long long>(it.idx),
-			        static_cast<unsigned long long>(r.fp), static_cast<unsigned long long>(r.sched), r.nontrivial ? 1 : 0,
-			        static_cast<unsigned long long>(r.evaluations), static_cast<unsigned long long>(r.nontrivialEvals),
-			        static_cast<unsigned long long>(r.distinctEvals));
-			break;
-		case RunResult::Violated:
-			fprintf(out, "V %zu %llu %s %zu |%s| %s\n", it.part, static_cast<unsigned long long>(it.idx), r.v.clause.c_str(), r.v.opIndex,
-			        oneLine(r.v.variant).c_str(), oneLine(r.v.msg).c_str());
-			break;
-		case RunResult::Foreign:
-			fprintf(out, "F %zu %llu %s\n", it.part, static_cast<unsigned long long>(it.idx), r.v.clause.c_str());
-			break;
-		case RunResult::HarnessError:
-			fprintf(out, "E %zu %llu %s\n", it.part, static_cast<unsigned long long>(it.idx), oneLine(r.error).c_str());
-			break;
-		}
+		emitResult(out, it, r);
 		if (++sinceFlush >= 64 || r.kind != RunResult::Ok) flushCounters();
 		fflush(out);
 	}
 	flushCounters();
+	if (zy > 0) { close(zreq[1]); int st = 0; waitpid(zy, &st, 0); }
 	fprintf(out, "D\n");
 	fflush(out);
 	disk::removeScratch();
